@@ -66,7 +66,7 @@ int mpt_message_buf2id(const void *ptr, size_t len, uint64_t *iptr)
 	used = id ? 1 : 0;
 	
 	/* add higher order ID parts */
-	while (!--len) {
+	while (--len) {
 		val = *buf++;
 		id *= 0x100;
 		if ((val || used) && ++used > sizeof(id)) {
@@ -74,5 +74,6 @@ int mpt_message_buf2id(const void *ptr, size_t len, uint64_t *iptr)
 		}
 		id |= val;
 	}
+	if (iptr) *iptr = id;
 	return used;
 }
